@@ -23,6 +23,7 @@ type Config struct {
 	CodecAll  bool   // binding i uses codec path i%3 (C03)
 	LastOp    string // pickembed: only behaviours ending in this op
 	Adapters  bool   // also run the suite-as-group adapters
+	FirstUse  int    // variant of the first-use probe run before anything else (see firstuse.go); <0 = seed%4
 }
 
 func Load(path string) ([]Behaviour, [][]byte, error) {
@@ -78,6 +79,15 @@ func Run(cfg Config, res *core.Result) error {
 		}
 		names = append(names, g.Name)
 	}
+	fu := cfg.FirstUse
+	if fu < 0 {
+		fu = int(cfg.Seed % 4)
+	}
+	var probe []*groups.Info
+	for _, n := range names {
+		probe = append(probe, groups.ByName(n))
+	}
+	FirstUse(probe, fu, res, cfg.Prop)
 	var tasks []task
 	for _, n := range names {
 		for b := 0; b < cfg.Bindings; b++ {
